@@ -338,6 +338,7 @@ func privateKeyRawIsCopy(c *an.Check) {
 // known-but-unregistered type must be an error, not a call through a nil function). Shared by C11 and C39.
 func keyUnmarshalDispatchGates(c *an.Check) {
 	p := c.P
+	decodeIntoZeroMessage(c, "crypto key decoders decode into a zero message", []*ssa.Function{p.Func("crypto", "", "UnmarshalPublicKey"), p.Func("crypto", "", "UnmarshalPrivateKey")})
 	for _, w := range []struct{ un, msg, reg string }{{"UnmarshalPublicKey", "PublicKey", "PubKeyUnmarshallers"}, {"UnmarshalPrivateKey", "PrivateKey", "PrivKeyUnmarshallers"}} {
 		f := p.Func("crypto", "", w.un)
 		target := f
@@ -386,4 +387,69 @@ func keyUnmarshalDispatchGates(c *an.Check) {
 				return found && gk != nil && gd != nil && s.Key(gk.Call.Args[0]) == s.Key(gd.Call.Args[0])
 			}}}})
 	}
+}
+
+// decodeIntoZeroMessage: a decoder that unmarshals into a message it allocates itself starts from the zero message —
+// no field of it is assigned before UnmarshalVT. proto3 omits zero-valued scalars on the wire, so a pre-set field
+// survives decoding of any encoding that leaves it out (a key of another type is dispatched as the preset type).
+func decodeIntoZeroMessage(c *an.Check, construct string, fns []*ssa.Function) int {
+	p := c.P
+	n, bad := 0, ""
+	for _, fn := range fns {
+		if fn == nil {
+			continue
+		}
+		for _, b := range fn.Blocks {
+			for _, ins := range b.Instrs {
+				call, ok := ins.(*ssa.Call)
+				if !ok || call.Call.IsInvoke() {
+					continue
+				}
+				fo := an.CallObj(call.Common())
+				if fo == nil || fo.Name() != "UnmarshalVT" || len(call.Call.Args) == 0 {
+					continue
+				}
+				al, isAlloc := call.Call.Args[0].(*ssa.Alloc)
+				if !isAlloc {
+					continue
+				}
+				n++
+				for _, ob := range fn.Blocks {
+					for _, oi := range ob.Instrs {
+						st, isSt := oi.(*ssa.Store)
+						if !isSt {
+							continue
+						}
+						base := st.Addr
+						for {
+							if fa, ok := base.(*ssa.FieldAddr); ok {
+								base = fa.X
+								continue
+							}
+							if ia, ok := base.(*ssa.IndexAddr); ok {
+								base = ia.X
+								continue
+							}
+							break
+						}
+						if base != ssa.Value(al) || st.Addr == ssa.Value(al) {
+							continue
+						}
+						if an.InstrDominates(call, st) {
+							continue // assigned after decoding
+						}
+						bad = fmt.Sprintf("%s presets a field of the message at %s before decoding into it at %s: an encoding that omits the field (proto3 zero value) keeps the preset", an.FuncName(fn), p.Pos(st.Pos()), p.Pos(call.Pos()))
+					}
+				}
+			}
+		}
+	}
+	c.Sites(n)
+	c.Require(bad == "" && n >= 1, "OWNERSHIP", construct, fns[0], "", n, "every locally allocated message is untouched before UnmarshalVT", func() string {
+		if bad != "" {
+			return bad
+		}
+		return "no UnmarshalVT into a local message found (anchor drift)"
+	}())
+	return n
 }
